@@ -1,0 +1,18 @@
+//go:build verif
+
+package buffer
+
+// VerifHeld returns the total capacity of all byte arrays the StreamLexer keeps alive:
+// the current buffer and every block of its pool. Verification hook, only built with -tags verif.
+func (z *StreamLexer) VerifHeld() int {
+	n := cap(z.buf)
+	for _, b := range z.pool.pool {
+		n += cap(b.buf)
+	}
+	return n
+}
+
+// VerifState exposes the cursor and pool bookkeeping for comparison with the TLA+ model StreamImpl.
+func (z *StreamLexer) VerifState() (start, pos, prevStart, lenBuf, capBuf, free, blocks, head, tail, poolPos int) {
+	return z.start, z.pos, z.prevStart, len(z.buf), cap(z.buf), z.free, len(z.pool.pool), z.pool.head, z.pool.tail, z.pool.pos
+}
